@@ -173,11 +173,30 @@ ROUND7 = {
 }
 
 
+ROUND8 = {
+    'C01': 'Hooks that use the process between the entry of the terminal state and close() (out, add_cleanup, remove_process_listener); directly executed kill / fail whose own hooks ask for another transition.',
+    'C02': 'A process with a loop of its own that is constructed and controlled from synchronous code while no loop runs (nothing may land on the default loop); a required output that is never emitted; on_process_finished is handed the outputs.',
+    'C03': 'Own-loop scenarios: the future that replaces the outcome after a failing hook lives on the loop of the process.',
+    'C04': 'Own-loop scope: kills and future cancellations from synchronous code while no loop runs.',
+    'C07': 'A loaded process that goes on emitting must not change the saved state it was loaded from; custom loaders are falsy objects.',
+    'C08': 'Every single crash point also with a loop of its own, loaded and woken from synchronous code.',
+    'C11': 'Validators that rely on the declared type; falsy defaults under namespaces whose defaults are not populated.',
+    'C12': 'Type-relying validators; a spec class with its own output port class (OUTPUT_PORT_TYPE) that refuses None.',
+    'C13': 'First step started with arguments through create_initial_state(); own-loop cases (construction, loading of every checkpoint, wake-ups from synchronous code).',
+    'C17': 'execute_process through RemoteProcessThreadController, also against a launcher that must refuse the create half.',
+    'C18': 'Hooks of externally requested pause / kill that the stepping process carries out itself; helper tasks started by a step keep seeing the same current process (isolation between contexts).',
+    'C19': 'A member holding a bound method of another object makes save() raise TypeError; falsy loaders.',
+    'C20': 'wrap_communicator on an already wrapped communicator for the same and for another loop.',
+}
+
+
 def main():
     checks = []
     for pid, (level, technique, text, note, ref) in sorted(CHECKS.items()):
         if pid in ROUND7:
             text = text.rstrip() + ' Added after round 7 of the seeded changes: ' + ROUND7[pid]
+        if pid in ROUND8:
+            text = text.rstrip() + ' Added after round 8: ' + ROUND8[pid]
         checks.append(
             {
                 'property_id': pid,
